@@ -1,3 +1,4 @@
+import json
 """C12 -- parser reuse: handler-cache model correspondence + histories on a shared parser vs fresh parsers."""
 import io
 
@@ -72,6 +73,10 @@ class C12(Plugin):
         out.append({"k": 1, "calls": [["parse", "<!DOCTYPE html><pre>&;", {"strict": 1}],
                                       ["parse", "<!DOCTYPE html><p>\nx", {}]]})
         out.append({"k": 1, "calls": [["parse", "<table>abcdefghij", {"fail_after": 2}], ["parse", "<table> <tr>", {}]]})
+        # module-level caches: tree builder modules requested with different keyword values, in every order,
+        # each sequence in ONE fresh interpreter ("what a brand-new object in a fresh interpreter returns")
+        for order in ([True, False], [False, True], [None, True, False], [True, None, False, True], [False, False, True]):
+            out.append({"k": 2, "order": order})
         return out
 
     def cases(self, rng, n, tier):
@@ -154,6 +159,23 @@ class C12(Plugin):
                 call({"type": 3, "name": name, "data": {}, "selfClosing": False})
             cache = getattr(ph2, "_Phase__startTagCache" if case["which"] == "start" else "_Phase__endTagCache")
             return [rec, list(cache.keys())]
+        if case["k"] == 2:
+            import subprocess
+            import sys
+            import os
+            prog = ("import html5lib, json, sys\n"
+                    "res = []\n"
+                    "for ft in json.loads(sys.argv[1]):\n"
+                    "    kw = {} if ft is None else {'fullTree': ft}\n"
+                    "    tb = html5lib.getTreeBuilder('etree', **kw)\n"
+                    "    d = html5lib.HTMLParser(tree=tb).parse('<!DOCTYPE html><!--c--><p>x')\n"
+                    "    root = d.getroot() if hasattr(d, 'getroot') else d\n"
+                    "    res.append([str(root.tag).split('}')[-1], len(list(root))])\n"
+                    "print(json.dumps(res))\n")
+            env = dict(os.environ)
+            r = subprocess.run([sys.executable, "-c", prog, json.dumps(case["order"])], capture_output=True, text=True,
+                               timeout=60, env=env)
+            return [json.loads(r.stdout) if r.returncode == 0 else r.stderr[-300:], []]
         # histories
         shared = html5lib.HTMLParser(tree=html5lib.getTreeBuilder("dom"))
         diffs = []
@@ -169,6 +191,10 @@ class C12(Plugin):
     def oracle(self, case, out):
         if case["k"] == 1 and out[1]:
             return [("reused-parser-differs-from-fresh", repr((case["calls"], out[1])))]
+        if case["k"] == 2:
+            want = [["DOCUMENT_ROOT", 3] if ft else ["html", 2] for ft in case["order"]]
+            if out[0] != want:
+                return [("tree-builder-request-depends-on-earlier-requests", repr((case["order"], out[0], want)))]
         return []
 
     def nontrivial_key(self, case, out):
